@@ -516,6 +516,23 @@ class Tr:
         if isinstance(n, ast.List):
             if not n.elts:
                 return V(kind="empty")
+            if self.early and any(isinstance(e, ast.Starred) for e in n.elts):
+                # `[a, *xs, b]`: the concatenation of the singleton / starred parts, in order
+                parts, ety = [], None
+                for e in n.elts:
+                    if isinstance(e, ast.Starred):
+                        v = self.lean(self.ex(e.value))
+                        if not (isinstance(v.ty, tuple) and v.ty[0] == "List"):
+                            raise Refuse(f"starred element `{ast.unparse(e)[:40]}` of type {v.ty} in a list display")
+                        t, code = v.ty[1], paren(v.code)
+                    else:
+                        v = self.lean(self.ex(e))
+                        t, code = v.ty, f"[{v.code}]"
+                    if ety is not None and t != ety:
+                        raise Refuse("list display with elements of different types")
+                    ety = t
+                    parts.append(code)
+                return V(L(ety), " ++ ".join(parts))
             items = [self.lean(self.ex(e)) for e in n.elts]
             up = getattr(self.sheet, "UPCAST", {})
             if any(x.ty != items[0].ty for x in items) and all(x.ty in up for x in items):
